@@ -34,6 +34,8 @@
 
 extern crate a_vf_core as vf_core;
 
+pub mod synth;
+
 use fauntlet::{Font, Hinting, HintingTarget, InstanceOptions, RegularizingPen};
 use serde_json::{json, Value};
 use skrifa::{outline::pen::PathElement, GlyphId};
@@ -243,11 +245,16 @@ fn run_config(
     ppem: u32,
     mode: Mode,
     gids: &mut dyn Iterator<Item = u32>,
+    synth: Option<&synth::SynthFont>,
 ) -> ConfigOutcome {
     let options = InstanceOptions::new(face.index, ppem, &[], mode.hinting());
     // Instance creation runs fpgm/prep (skrifa) and FT_New_Memory_Face +
     // FT_Set_Pixel_Sizes; a panic in there is not this property's subject.
+    let t_inst = std::time::Instant::now();
     let inst = vf_core::guard(|| ft_font.instantiate(&options));
+    if synth.is_some() {
+        ctx.count(&format!("synthetic_instantiate_us:{}", mode.engine()), t_inst.elapsed().as_micros() as u64);
+    }
     let (ft, sk) = match inst {
         Ok(Some(pair)) => pair,
         Ok(None) => {
@@ -412,7 +419,7 @@ fn run_config(
                     } else {
                         Value::Null
                     };
-                    let detail = json!({
+                    let mut detail = json!({
                         "diagnosis": diagnosis,
                         "font": fkey,
                         "font_path": font.path.to_string_lossy(),
@@ -431,7 +438,15 @@ fn run_config(
                         "skrifa_path": path_to_strings(sk_path, 40),
                         "note": "first differing (ppem, target) seen by this shard for this (font, glyph, engine); events.differing_comparisons:<signature> has the total",
                     });
-                    if ctx.violation(&sig, detail, None) {
+                    if let Some(sf) = synth {
+                        // synthetic font: generator parameters + the glyph's recipe;
+                        // the font bytes are the replay input
+                        detail["synthetic"] = sf.params.clone();
+                        detail["glyph_recipe"] = synth::describe_glyph(sf, gid);
+                        ctx.count(&format!("mismatch_synthetic:{}", mode.engine()), 1);
+                    }
+                    let bytes: Option<&[u8]> = synth.map(|sf| sf.bytes.as_slice());
+                    if ctx.violation(&sig, detail, bytes) {
                         // not a known finding: keep a per-size breakdown
                         ctx.count(&format!("new_mismatch_by_font_engine_ppem:{}:{}:{:05}", font.name, mode.engine(), ppem), 1);
                     }
@@ -477,9 +492,11 @@ pub fn run(ctx: &mut Ctx, _args: &Args) {
         json!("freetype-sys 0.17 bundled FreeType 2.12.1, driven through fauntlet's adapter"),
     );
 
+    // Debugging aid only (never set by the driver): skip the corpus part.
+    let skip_corpus = std::env::var("C03_SKIP_CORPUS").is_ok();
     for font in &fonts {
         let faces = static_outline_faces(ctx, font);
-        if faces.is_empty() {
+        if faces.is_empty() || skip_corpus {
             continue;
         }
         // One FT library + mmap per corpus file per shard, opened lazily.
@@ -518,7 +535,7 @@ pub fn run(ctx: &mut Ctx, _args: &Args) {
                         0
                     };
                     let mut gids = (0..n as u32).filter(|g| (*g as usize) % stride == offset);
-                    match run_config(ctx, &mut stats, ff, font, face, ppem, mode, &mut gids) {
+                    match run_config(ctx, &mut stats, ff, font, face, ppem, mode, &mut gids, None) {
                         ConfigOutcome::Ran => {
                             if !face_seen {
                                 face_seen = true;
@@ -546,11 +563,148 @@ pub fn run(ctx: &mut Ctx, _args: &Args) {
         }
     }
 
+    run_synthetic(ctx, &mut stats, &mut item);
+
     for (sig, n) in stats.mismatches.iter().take(200) {
         // per-signature totals (summed over shards by the merge)
         ctx.count(&format!("differing_comparisons:{}", sig), *n);
     }
     ctx.exhaustive = Some(!quick);
+}
+
+/// Synthetic fonts per tier (dealt to shards one font at a time).
+const SYNTH_FONTS_QUICK: u32 = 640;
+const SYNTH_FONTS_THOROUGH: u32 = 4800;
+
+/// A synthetic font written to a private temporary file (fauntlet maps files).
+struct TempFont {
+    dir: std::path::PathBuf,
+    path: std::path::PathBuf,
+}
+
+impl TempFont {
+    fn write(name: &str, bytes: &[u8]) -> Option<TempFont> {
+        let dir = std::env::temp_dir().join(format!("vf-c03-synth-{}", std::process::id()));
+        std::fs::create_dir_all(&dir).ok()?;
+        let path = dir.join(format!("{name}.ttf"));
+        std::fs::write(&path, bytes).ok()?;
+        Some(TempFont { dir, path })
+    }
+}
+
+impl Drop for TempFont {
+    fn drop(&mut self) {
+        let _ = std::fs::remove_file(&self.path);
+        let _ = std::fs::remove_dir(&self.dir); // only succeeds when empty
+    }
+}
+
+fn synth_corpus_font(sf: &synth::SynthFont, tmp: &TempFont) -> CorpusFont {
+    CorpusFont {
+        name: sf.name.clone(),
+        path: tmp.path.clone(),
+        data: std::sync::Arc::new(sf.bytes.clone()),
+    }
+}
+
+/// Modes for one synthetic font: everything for fonts with programs; fonts
+/// without any bytecode have a single interpreter behaviour per target class,
+/// so two interpreter targets are enough there.
+fn synth_modes(sf: &synth::SynthFont) -> Vec<Mode> {
+    if sf.has_programs {
+        scaled_modes()
+    } else {
+        let mut v = vec![Mode::Unhinted];
+        v.push(Mode::Hinted(Hinting::Interpreter(HintingTarget::Mono)));
+        v.push(Mode::Hinted(Hinting::Interpreter(HintingTarget::Normal)));
+        v.extend(TARGETS.iter().map(|t| Mode::Hinted(Hinting::Auto(*t))));
+        v
+    }
+}
+
+/// Runs every glyph of one synthetic font through its size list and modes.
+fn run_synth_font(ctx: &mut Ctx, stats: &mut Stats, sf: &synth::SynthFont, ppems: &[u32], only: Option<(u32, &str)>) {
+    let Some(tmp) = TempFont::write(&sf.name, &sf.bytes) else {
+        ctx.inconclusive(format!("cannot write temporary font file for {}", sf.name));
+        return;
+    };
+    let font = synth_corpus_font(sf, &tmp);
+    let faces = static_outline_faces(ctx, &font);
+    let Some(face) = faces.first() else {
+        // the generator promises a static glyf font that read-fonts can open
+        ctx.inconclusive(format!("synthetic font {} not recognised as a static glyf face", sf.name));
+        return;
+    };
+    let face = FaceInfo { index: face.index, glyph_count: face.glyph_count, flavour: "glyf-synthetic" };
+    let Some(mut ff) = open_font(ctx, &font.path) else { return };
+    let modes = synth_modes(sf);
+    let n = face.glyph_count;
+    for &ppem in ppems {
+        let mode_list: Vec<Mode> = if ppem == 0 { vec![Mode::Unscaled] } else { modes.clone() };
+        for mode in mode_list {
+            let outcome = match only {
+                Some((gid, engine)) => {
+                    if mode.engine() != engine {
+                        continue;
+                    }
+                    run_config(ctx, stats, &mut ff, &font, &face, ppem, mode, &mut std::iter::once(gid), Some(sf))
+                }
+                None => run_config(ctx, stats, &mut ff, &font, &face, ppem, mode, &mut (0..n), Some(sf)),
+            };
+            match outcome {
+                ConfigOutcome::Ran => ctx.count("synthetic_configs_run", 1),
+                ConfigOutcome::Skipped(why) => ctx.count(&format!("synthetic_configs_skipped:{}", why), 1),
+            }
+        }
+    }
+}
+
+/// The constructive part of the workload: fonts built by `synth::generate`
+/// from (VERIF_SEED, index), same differential as the corpus.
+fn run_synthetic(ctx: &mut Ctx, stats: &mut Stats, item: &mut usize) {
+    let n_fonts = std::env::var("C03_SYNTH_FONTS")
+        .ok()
+        .and_then(|s| s.parse().ok())
+        .unwrap_or(ctx.tier.pick(SYNTH_FONTS_QUICK, SYNTH_FONTS_THOROUGH));
+    let thorough = ctx.tier.is_thorough();
+    let debug_sizes: Option<Vec<u32>> = std::env::var("C03_SIZES").ok().map(|s| s.split(',').filter_map(|x| x.parse().ok()).collect());
+    let mut features: BTreeMap<String, u64> = BTreeMap::new();
+    for index in 0..n_fonts {
+        let mine = ctx.mine(*item);
+        *item += 1;
+        if !mine {
+            continue;
+        }
+        let sf = match vf_core::guard(|| synth::generate(ctx.seed, index)) {
+            Ok(f) => f,
+            Err(p) => {
+                ctx.inconclusive(format!("generator panicked for font {}: {}:{} {}", index, p.file, p.line, p.msg));
+                continue;
+            }
+        };
+        ctx.count("synthetic_fonts", 1);
+        ctx.count("synthetic_glyphs", sf.glyphs.len() as u64);
+        if sf.has_programs {
+            ctx.count("synthetic_fonts_with_programs", 1);
+        }
+        ctx.label("synthetic_units_per_em", &format!("{:05}", sf.upem));
+        for (k, v) in &sf.features {
+            *features.entry(k.clone()).or_default() += *v;
+        }
+        let ppems = debug_sizes.clone().unwrap_or_else(|| if thorough { sf.ppems_thorough.clone() } else { sf.ppems_quick.clone() });
+        run_synth_font(ctx, stats, &sf, &ppems, None);
+    }
+    for (k, v) in features {
+        ctx.count(&format!("synthetic_feature:{}", k), v);
+    }
+    ctx.extra.insert(
+        "synthetic".into(),
+        json!({
+            "generator_version": synth::GEN_VERSION,
+            "fonts_this_tier": n_fonts,
+            "note": "fonts derive from (VERIF_SEED, index); counters synthetic_feature:* count generated glyphs/components per feature; comparisons:glyf-synthetic counts the comparisons",
+        }),
+    );
 }
 
 /// Mirror of `fauntlet::SkrifaInstance::new`, used only to attribute an
@@ -673,11 +827,45 @@ fn open_font(ctx: &mut Ctx, path: &Path) -> Option<Font> {
     }
 }
 
+/// Replay of a mismatch on a synthetic font: the recorded font bytes (or, if
+/// the .bin is gone, the font regenerated from (seed, index)) x all sizes x
+/// the recorded engine, for the recorded glyph.
+fn replay_synthetic(ctx: &mut Ctx, d: &Value, bytes: Option<&[u8]>) {
+    let seed = d["synthetic"]["seed"].as_u64().unwrap_or(ctx.seed);
+    let index = d["synthetic"]["index"].as_u64().unwrap_or(0) as u32;
+    let gid = d["gid"].as_u64().unwrap_or(0) as u32;
+    let engine = d["engine"].as_str().unwrap_or("none").to_string();
+    let mut sf = match vf_core::guard(|| synth::generate(seed, index)) {
+        Ok(f) => f,
+        Err(p) => {
+            ctx.inconclusive(format!("replay: generator panicked: {}", p.msg));
+            return;
+        }
+    };
+    if let Some(b) = bytes {
+        if b != sf.bytes.as_slice() {
+            // generator changed since the record was written: trust the bytes
+            ctx.count("replay_bytes_differ_from_regenerated_font", 1);
+            sf.bytes = b.to_vec();
+        }
+    }
+    let mut all_sizes: Vec<u32> = vec![0];
+    all_sizes.extend(5..=200u32);
+    all_sizes.extend(THOROUGH_EXTRA_SIZES);
+    let mut stats = Stats::default();
+    run_synth_font(ctx, &mut stats, &sf, &all_sizes, Some((gid, &engine)));
+}
+
 /// Re-run one recorded mismatch: all sizes of the tier for the recorded
 /// (font, face, glyph, engine).
 fn replay(ctx: &mut Ctx, _args: &Args, rec: &Value, _bytes: Option<&[u8]>) {
     ctx.rule = "replay of one recorded (font, glyph, engine)".into();
     let d = &rec["detail"];
+    if d["synthetic"].is_object() {
+        replay_synthetic(ctx, d, _bytes);
+        return;
+    }
+    let synth_font: Option<synth::SynthFont> = None;
     let Some(name) = d["font"].as_str().and_then(|s| s.split('#').next()) else {
         ctx.inconclusive("replay record without font");
         return;
@@ -708,7 +896,7 @@ fn replay(ctx: &mut Ctx, _args: &Args, rec: &Value, _bytes: Option<&[u8]>) {
                 continue;
             }
             let mut gids = std::iter::once(gid);
-            run_config(ctx, &mut stats, &mut ff, font, face, ppem, mode, &mut gids);
+            run_config(ctx, &mut stats, &mut ff, font, face, ppem, mode, &mut gids, synth_font.as_ref());
         }
     }
 }
